@@ -19,7 +19,7 @@ BOUNDS = {'quick': 'n<=2 rectangles in every order on all 36 band layouts (inter
 ASSUMPTIONS = ['R model; separation margin: two boundary coordinates on the symbolic axis are equal or differ by >= 1e-3 '
                '(tolerances 1e-10 / 1e-5 in force), so "within epsilon" and "equal" coincide',
                'Rectangle tolerances preset to (1e-10, 1e-5)']
-NOT_DECIDED = ['which trunk is preferred when several qualify', 'sub-margin gaps/overlaps', 'both axes symbolic at once']
+NOT_DECIDED = ['(roles left by an earlier recognition are part of the pre-state: none / all TRUNK / mixed)', 'which trunk is preferred when several qualify', 'sub-margin gaps/overlaps', 'both axes symbolic at once']
 MUST_REACH = ['stog-true', 'stog-false']
 L = Rectangle.StogLocation
 
@@ -44,7 +44,8 @@ def cases(tier):
     for n, ivs in plan:
         for combo in itertools.product(ivs, repeat=n):
             for tr in (0, 1):
-                cs.append(dict(n=n, bands=[list(c) for c in combo], transposed=tr, via_module=(n == 2 and tr == 0)))
+                cs.append(dict(n=n, bands=[list(c) for c in combo], transposed=tr, via_module=(n == 2 and tr == 0),
+                               stale=(len(cs) % 3)))   # roles left on the rectangles by an earlier recognition: none / all TRUNK / mixed
     return cs
 
 
@@ -91,6 +92,12 @@ def body(I, case):
     for a, b in itertools.combinations(xs, 2):
         I.assume(Or(Eq(a, b), a - b >= DELTA, b - a >= DELTA))
     objs = list(rects)
+    stale = case.get('stale', 0)
+    for k, r in enumerate(rects):   # the rectangles may carry roles from an earlier recognition (e.g. before a branch was moved)
+        if stale == 1:
+            r.location = L.TRUNK
+        elif stale == 2:
+            r.location = [L.TRUNK, L.NORTH, L.EAST, L.SOUTH][k % 4]
     if case.get('via_module'):
         m = Module('M', hard=True)
         for r in rects:
